@@ -29,11 +29,20 @@ def ops_for(d, scope):
     return Z3Ops(d, Vp=Vp, scope=scope)
 
 
-def meta_eval(repo, d, s_sv):
+def meta_eval(repo, d, s_sv, keys=None):
     """One-level unfolding of wf_d(s): the bundled metaschema partially evaluated on the symbolic
-    candidate s (nested {"$ref": "#"} become wf_d atoms)."""
+    candidate s (nested {"$ref": "#"} become wf_d atoms).  With `keys`, only the conjuncts that
+    constrain those member names are kept (a weaker, hence sound, precondition: V(META, s) is a
+    conjunction over META's keywords and over the members of its `properties`)."""
     o = Z3Ops(d, Vp=None, meta_root=repo.schemas[d], wf_pred=WF[d], scope=None)
-    return drafts.V_concrete_schema(o, repo.schemas[d], s_sv)
+    meta = repo.schemas[d]
+    if keys is not None:
+        meta = dict(meta)
+        if isinstance(meta.get("properties"), dict):
+            meta["properties"] = {k: v for k, v in meta["properties"].items() if k in keys}
+        if isinstance(meta.get("dependencies"), dict):
+            meta["dependencies"] = {k: v for k, v in meta["dependencies"].items() if k in keys}
+    return drafts.V_concrete_schema(o, meta, s_sv)
 
 
 _wf_registered = {}
@@ -215,7 +224,8 @@ def subschema_wf(I, st, d, sub, facts):
     res = smt.check_sat(st.pc + facts + [z3.Not(atom)], timeout_ms=3000, use_cvc5=False)
     if res.status == "unsat":
         return atom
-    return z3.And(atom == meta_eval(repo, d, sub), meta_eval(repo, d, sub))
+    # wf_d is *defined* by the metaschema: prove the unfolding for this (constructed) schema
+    return meta_eval(repo, d, sub)
 
 
 class SubValidation(Contract):
@@ -354,6 +364,38 @@ class ErrSet(Contract):
         return [(s, lift(None))]
 
 
+class EqualC(Contract):
+    """_utils.equal(one, two): requires JSON values; ensures result == jeq(one, two) (C08); no exception."""
+    key = "_utils:equal"
+
+    def apply(self, I, st, args, kwargs, fref):
+        a, f1 = materialise(I, st, args[0])
+        b, f2 = materialise(I, st, args[1])
+        s = st.fork()
+        for f in f1 + f2:
+            add_def(s, f)
+        s = require(I, s, "equal.json", z3.And(smt.isjson(a.t), smt.isjson(b.t)), "operands are JSON values")
+        m = I.ctx.config.get("equal_measure")
+        if m is not None:
+            s = require(I, s, "equal.decreases", smt.size(a.t) + smt.size(b.t) < m, "recursive call on strictly smaller operands")
+        return [(s, SB(smt.jeq(a.t, b.t)))]
+
+
+class UniqC(Contract):
+    """_utils.uniq(container): requires a JSON array; ensures result == (no two elements are jeq) (C08)."""
+    key = "_utils:uniq"
+
+    def apply(self, I, st, args, kwargs, fref):
+        c = args[0]
+        s = require(I, st, "uniq.array", z3.And(smt.kd(c.t, K_LIST), smt.isjson(c.t)), "container is a JSON array")
+        return [(s, SB(uniq_spec(c.t)))]
+
+
+def uniq_spec(t):
+    i, j = smt.fresh("u", smt.I), smt.fresh("u", smt.I)
+    return z3.ForAll([i, j], z3.Implies(z3.And(0 <= i, i < j, j < llen(t)), z3.Not(smt.jeq(lget(t, i), lget(t, j)))))
+
+
 def base_contracts():
     cs = {}
     for which in ("descend", "iter_errors", "is_valid"):
@@ -361,4 +403,6 @@ def base_contracts():
         cs[k] = SubValidation(k, which)
     cs[IsType.key] = IsType()
     cs[ErrSet.key] = ErrSet()
+    cs[EqualC.key] = EqualC()
+    cs[UniqC.key] = UniqC()
     return cs
